@@ -5,17 +5,17 @@
    [triangleset] follows the numpy statements one by one:
        indexselector = numpy.zeros(nvertices) == 0
        vcounts = numpy.asarray(self.vcounts)
-       indexselector[self.polyends[vcounts >= 1] - 1] = False      (integer-array assignment,
-       indexselector[self.polyends[vcounts >= 2] - 2] = False       negative indices wrap)
+       indexselector[self.polyends[vcounts >= g] - d] = False      (integer-array assignment, negative
+                                  for every (g, d) of Gen.Triangulate.tri_clears     indices wrap)
        indexselector = numpy.arange(nvertices)[indexselector]
        firstpolyindex = numpy.arange(nvertices) - numpy.repeat(polyends - vcounts, vcounts)
        firstpolyindex = firstpolyindex[indexselector]
-       triindex = dstack((index[indexselector - firstpolyindex], index[indexselector + 1],
-                          index[indexselector + 2]))          (only if len(index) > 0)
+       triindex = dstack((index[e0], index[e1], index[e2]))   (only if len(index) > 0; the three index
+                                  expressions are Gen.Triangulate.tri_gathers)
    nvertices is sum(vcounts), or 0 when the index is empty.  The model is meant for
    sum(vcounts) = number of index rows (anything else is the subject of C09). *)
 From Coq Require Import List Bool ZArith Arith.
-From PC Require Import Base.Outcome Base.Py Base.PySlice Model.Strips.
+From PC Require Import Base.Outcome Base.Py Base.PySlice Base.NpProg Gen.Triangulate Model.Strips.
 Import ListNotations.
 Local Open Scope nat_scope.
 
@@ -34,31 +34,45 @@ Fixpoint zipwith {A B C} (f : A -> B -> C) (x : list A) (y : list B) : list C :=
 
 Definition total (l : list nat) : nat := fold_right Nat.add 0 l.
 
+(* positions addressed by one clearing assignment *)
+Definition clear_idx (ends vcounts : list nat) (cl : clear_spec) : list Z :=
+  map (fun e => (Z.of_nat e - snd cl)%Z) (np_compress (map (fun c => fst cl <=? c) vcounts) ends).
+
+Fixpoint apply_clears (mask : list bool) (ends vcounts : list nat) (cls : list clear_spec)
+  : outcome (list bool) :=
+  match cls with
+  | [] => Ok mask
+  | cl :: r => obind (np_put mask (clear_idx ends vcounts cl) false) (fun m => apply_clears m ends vcounts r)
+  end.
+
 (* the two integer arrays computed before the index is touched: the selected positions
    (indexselector) and their offsets inside their polygon (firstpolyindex[indexselector]) *)
 Definition selectors (nv : nat) (vcounts : list nat) : outcome (list Z * list Z) :=
   let ends := cumsum vcounts in
   let starts := zipwith Nat.sub ends vcounts in
   let sel0 := repeat true nv in
-  let last1 := map (fun e => (Z.of_nat e - 1)%Z) (np_compress (map (fun c => 1 <=? c) vcounts) ends) in
-  let last2 := map (fun e => (Z.of_nat e - 2)%Z) (np_compress (map (fun c => 2 <=? c) vcounts) ends) in
-  obind (np_put sel0 last1 false) (fun sel1 =>
-  obind (np_put sel1 last2 false) (fun sel2 =>
+  obind (apply_clears sel0 ends vcounts tri_clears) (fun sel2 =>
   obind (np_mask (seq 0 nv) sel2) (fun selected =>
   let rep := np_repeat_each starts vcounts in
   if negb (Nat.eqb (length rep) nv) then Raise PyValueError else
   let first := zipwith (fun j s => (Z.of_nat j - Z.of_nat s)%Z) (seq 0 nv) rep in
   let sel := map Z.of_nat selected in
-  obind (np_take first sel) (fun fp => Ok (sel, fp))))).
+  obind (np_take first sel) (fun fp => Ok (sel, fp)))).
 
-(* the three gathers and numpy.dstack / swapaxes: triangle i = (index[sel_i - fp_i], index[sel_i + 1],
-   index[sel_i + 2]) *)
+(* value of a gather's index expression *)
+Definition gidx (g : gexpr) (sel fp : list Z) : list Z :=
+  match g with
+  | GSelMinusFirst => zipwith Z.sub sel fp
+  | GSelPlus k => map (fun j => (j + k)%Z) sel
+  end.
+
+(* the three gathers and numpy.dstack / swapaxes: triangle i = (index[e0_i], index[e1_i], index[e2_i]) *)
 Definition gather3 {A} (rows : list A) (sel fp : list Z) : outcome (list (tri A)) :=
   match rows with
   | [] => Ok []
-  | _ => obind (np_take rows (zipwith Z.sub sel fp)) (fun a =>
-         obind (np_take rows (map (fun j => (j + 1)%Z) sel)) (fun b =>
-         obind (np_take rows (map (fun j => (j + 2)%Z) sel)) (fun c =>
+  | _ => obind (np_take rows (gidx (fst (fst tri_gathers)) sel fp)) (fun a =>
+         obind (np_take rows (gidx (snd (fst tri_gathers)) sel fp)) (fun b =>
+         obind (np_take rows (gidx (snd tri_gathers) sel fp)) (fun c =>
          stack3 a b c)))
   end.
 
@@ -71,12 +85,39 @@ Definition polygon_rows {A} (vcounts : list nat) (rows : list A) : list (list A)
   map (fun se => firstn (snd se - fst se) (skipn (fst se) rows))
       (combine (zipwith Nat.sub (cumsum vcounts) vcounts) (cumsum vcounts)).
 
-(* Polygon.triangles(): for i in range(npts - 2): (p[0], p[i+1], p[i+2]) *)
-Definition poly_triangles {A} (poly : list A) : list (tri A) :=
-  flat_map (fun i => match nth_error poly 0, nth_error poly (i + 1), nth_error poly (i + 2) with
-                     | Some a, Some b, Some c => [(a, b, c)]
-                     | _, _, _ => []
-                     end) (seq 0 (length poly - 2)).
+(* Polygon.triangles(): for i in range(npts - K): (col[e0], col[e1], col[e2]) for each of the polygon's
+   arrays col (indices, vertices, normals, normal_indices, each texcoord and texcoord_indices array), the
+   subscripts being those of Gen.Triangulate; a subscript is an ordinary numpy integer subscript *)
+Definition ieval (e : iexpr) (i : Z) : Z :=
+  match e with IConst z => z | ILoop k => (i + k)%Z end.
+
+Definition py_index {A} (l : list A) (z : Z) : outcome A :=
+  match norm_index (length l) z with
+  | Some k => of_option PyIndexError (nth_error l k)
+  | None => Raise PyIndexError
+  end.
+
+Definition poly_col {A} (cs : corners) (col : list A) : outcome (list (tri A)) :=
+  omapM (fun i => obind (py_index col (ieval (fst (fst cs)) i)) (fun a =>
+                  obind (py_index col (ieval (snd (fst cs)) i)) (fun b =>
+                  obind (py_index col (ieval (snd cs) i)) (fun c => Ok (a, b, c)))))
+        (map Z.of_nat (seq 0 (Z.to_nat (Z.of_nat (length col) - poly_range_sub)))).
+
+(* on whole rows (all arrays use the same subscripts: theorem C11_polygon_arrays_same_corners) *)
+Definition poly_triangles {A} (poly : list A) : outcome (list (tri A)) := poly_col poly_indices poly.
+
+(* ---- the bound path: BoundTriangleSet copies the index attributes of the unbound set as listed in
+   Gen.Triangulate.bound_copies; BoundPolylist.triangleset() is original.triangleset().bind(...) *)
+Definition bound_attr {V} (unbound : tsfield -> V) (f : tsfield) : option V :=
+  match find (fun c => tsfield_eqb (fst c) f) bound_copies with
+  | Some c => Some (unbound (snd c))
+  | None => None
+  end.
+
+(* the index rows of the bound triangulation of a polylist *)
+Definition bound_triangleset {A} (vcounts : list nat) (rows : list A) : outcome (option (list (tri A))) :=
+  omap (fun ts => bound_attr (fun f => match f with FIndex => ts | _ => [] end) FIndex)
+       (triangleset vcounts rows).
 
 (* Polygons.__init__: vcounts[i] = len(p_i) / (max_offset + 1); index = concatenate(p_i),
    reshaped by the Polylist constructor *)
